@@ -363,14 +363,15 @@ with p_postfix_expression (fuel: nat) : M node :=
   match fuel with O => oof | S f =>
     r <- try_paren_type_name f ;;
     complit <- (match r with
-                | Some (typ, mk, _) =>
+                | Some (typ, mk, lpt) =>
                   lb <- accept K_LBRACE ;;
                   match lb with
                   | Some _ =>
                     init <- p_initializer_list f ;;
                     accept K_COMMA ;;;
                     expect K_RBRACE ;;;
-                    ret (Some (mkN C_CompoundLiteral [typ; init] None))
+                    c <- tcoord lpt ;;
+                    ret (Some (mkN C_CompoundLiteral [typ; init] c))
                   | None => reset P mk ;;; ret None
                   end
                 | None => ret None
@@ -648,7 +649,8 @@ with p_struct_declarator (fuel: nat) : M dinfo :=
   match fuel with O => oof | S f =>
     c <- accept K_COLON ;;
     match c with
-    | Some _ => bs <- p_conditional_expression f ;; ret (mkDI P (Some (empty_TypeDecl P)) VNone bs)
+    | Some ct => bs <- p_conditional_expression f ;; cc <- tcoord ct ;;
+                 ret (mkDI P (Some (mkTypeDecl P VNone VNone VNone VNone cc)) VNone bs)
     | None =>
       d <- p_declarator f ;;
       c2 <- accept K_COLON ;;
